@@ -129,3 +129,9 @@ Proof.
     + rewrite <- app_assoc. reflexivity.
     + intros y a Hy. apply H. right. exact Hy.
 Qed.
+
+(* x[0], x[1] on a literal list (list_index contains a `let`, which zeta-free evaluation does not open) *)
+Lemma list_index_0 : forall x l, PyDyn.list_index (x :: l) 0 = Ok x.
+Proof. reflexivity. Qed.
+Lemma list_index_1 : forall x y l, PyDyn.list_index (x :: y :: l) 1 = Ok y.
+Proof. reflexivity. Qed.
